@@ -121,13 +121,15 @@ def case_history(ctx, spec):
 
 def case_backtest(ctx, spec):
     bt = ctx.bt
+    ua = spec.get("user_algos")
+    spec = {k_: v for k_, v in spec.items() if k_ != "user_algos"}
     try:
         b = c10.run_backtest(bt, spec)
     except Exception as e:
         raise Discard("run raised (C10's business): %s" % type(e).__name__)
     s = b.strategy
     attribution(bt, s, abs(spec.get("initial_capital", 1e6)), tag="backtest")
-    labs = gen.spec_labels(spec)
+    labs = gen.spec_labels(spec) + (["user_algos=" + ua] if ua else [])
     costed = any((np.asarray(m.fees, dtype=float) != 0).any() for m in s.members if isinstance(m, bt.core.StrategyBase)) or any(
         m._bidoffer_set and (np.asarray(m.bidoffers_paid, dtype=float) != 0).any() for m in s.members if isinstance(m, bt.core.SecurityBase)
     )
@@ -156,10 +158,34 @@ def _fi_spec():
     return c17.run_spec()
 
 
-STRATS = {"history": machine.history_spec, "backtest": gen.backtest_spec, "fi": _fi_spec}
+@st.composite
+def backtest_spec(draw):
+    """grammar backtests, some with user-style algos that follow the lazy-update protocol instead of refreshing the tree themselves:
+    a root algo trading with update=False (the backtest loop owes the closing update), a sub-strategy stack ending with an update
+    of the sub-strategy only"""
+    spec = draw(gen.backtest_spec())
+    nodes = list(gen.walk_nodes(spec["tree"]))
+    k = draw(st.integers(0, 5))
+    root = spec["tree"]
+    has_sub = len(nodes) > 1
+    if k == 0 and not has_sub:
+        declared = [c if isinstance(c, str) else c["sec"] for c in root.get("children") or []] or sorted(spec["prices"])
+        clean = [t for t in declared if all(x is not None for x in spec["prices"][t])]
+        if clean:
+            root["algos"] = root["algos"] + [["Or", {"algos": [["TradeNoUpdate", {"child": draw(st.sampled_from(clean)), "frac": draw(st.sampled_from([0.05, -0.05, 0.2])), "how": draw(st.sampled_from(["allocate", "transact"]))}], ["Const", {"v": True}]]}]]
+            root["algos"].insert(0, ["Or", {"algos": [["TradeNoUpdate", {"child": draw(st.sampled_from(clean)), "frac": draw(st.sampled_from([0.05, -0.1])), "how": "allocate"}], ["Const", {"v": True}]]}])
+            spec["user_algos"] = "trade_no_update"
+    elif k == 1 and has_sub:
+        for _, nd in nodes[1:]:
+            nd["algos"] = nd["algos"] + [["UpdateSelf", {}]]
+        spec["user_algos"] = "substrategy_updates_itself"
+    return spec
+
+
+STRATS = {"history": machine.history_spec, "backtest": backtest_spec, "fi": _fi_spec}
 
 
 def shard(ctx):
     run_sub(ctx, "history", machine.history_spec(min_ops=5, max_ops=30), lambda s: case_history(ctx, s), ctx.n(1600, 30000))
-    run_sub(ctx, "backtest", gen.backtest_spec(), lambda s: case_backtest(ctx, s), ctx.n(1000, 20000))
+    run_sub(ctx, "backtest", backtest_spec(), lambda s: case_backtest(ctx, s), ctx.n(1000, 20000))
     run_sub(ctx, "fi", _fi_spec(), lambda s: case_fi(ctx, s), ctx.n(600, 10000))
